@@ -110,6 +110,9 @@ void psAesReadyGCM(psAesGcm_t *ctx,
     Memset(ctx->EncCtr, 0, 16);
     Memcpy(ctx->EncCtr, IV, 12);
     ctx->EncCtr[15] = 2;
+    /* No keystream is left over from an earlier message: a tag shorter
+       than 16 bytes leaves part of its block unused in CtrBlock. */
+    ctx->OutputBufferCount = 0;
 
     psGhashUpdate(ctx, aad, aadLen, GHASH_DATATYPE_AAD);
     psGhashPad(ctx);
